@@ -1,9 +1,12 @@
 // C05: the block store holds one hash-linked canonical chain across reorgs and crashes.
 // (a) every delivery order of small block trees through AddBlockOnChain on a fresh node
-//     process; structural invariants after every delivery.
+//
+//	process; structural invariants after every delivery.
+//
 // (b) for representative histories, a process death before every individual physical
-//     store write (real os.Exit at the write), restart in a new process over the same
-//     directory through the unmodified boot path, same invariants plus the head bound.
+//
+//	store write (real os.Exit at the write), restart in a new process over the same
+//	directory through the unmodified boot path, same invariants plus the head bound.
 package main
 
 import (
@@ -108,7 +111,10 @@ func (ti *treeInfo) chain(hash string) ([]*BuiltBlock, bool) {
 	return nil, false
 }
 
-func hashBig(h string) *big.Int { b, _ := new(big.Int).SetString(strings.TrimPrefix(h, "0x"), 16); return b }
+func hashBig(h string) *big.Int {
+	b, _ := new(big.Int).SetString(strings.TrimPrefix(h, "0x"), 16)
+	return b
+}
 
 // notLower reports whether moving the head from old to new respects the weight order.
 func (ti *treeInfo) notLower(oldH, newH string) (bool, string) {
@@ -306,6 +312,35 @@ func permute(names []string, f func([]string)) {
 
 var runSeq int
 
+// sanity: delivered parent-first on a fresh node, every block whose parent is the current head
+// must be accepted (otherwise the harness-built tree is not a tree of valid blocks and every
+// later verdict would be vacuous).  Not an oracle: a failure is an infrastructure error.
+func sanity(c *fw.Ctx, ti *treeInfo, treeFile string) string {
+	var order []string
+	for _, b := range ti.t.Blocks {
+		order = append(order, b.Name)
+	}
+	runSeq++
+	dir := filepath.Join(c.Scratch, fmt.Sprintf("sanity%d", runSeq))
+	os.MkdirAll(dir, 0o755)
+	defer os.RemoveAll(dir)
+	mustWrite(filepath.Join(dir, "plan.json"), Plan{Order: order})
+	code, out := runChild(dir, nil, "run", treeFile, "plan.json", "out.json")
+	if code != 0 {
+		return "sanity run died: " + tail(out)
+	}
+	var ro RunOut
+	mustRead(filepath.Join(dir, "out.json"), &ro)
+	for i := 1; i < len(ro.Obs); i++ {
+		b := ti.byName[ro.Obs[i].Delivered]
+		prev := ro.Obs[i-1].Head
+		if b.PreHash == prev && ro.Obs[i].Head != b.Hash {
+			return fmt.Sprintf("tree %s: block %s extends the head but was not accepted (result %d)", ti.t.Name, b.Name, ro.Obs[i].Result)
+		}
+	}
+	return ""
+}
+
 // deliver runs one order on a fresh node process and checks every quiescent point.
 func deliver(c *fw.Ctx, ti *treeInfo, treeFile string, order []string) {
 	runSeq++
@@ -460,6 +495,12 @@ func run(c *fw.Ctx) {
 		var names []string
 		for _, b := range t.Blocks {
 			names = append(names, b.Name)
+		}
+		if c.Shard == 0 {
+			if msg := sanity(c, ti, treeFile); msg != "" {
+				c.Infra(msg)
+				return
+			}
 		}
 		// (a) every permutation; plus every permutation with one block delivered twice (quick: dup only for trees <= 4 blocks)
 		permute(names, func(order []string) {
